@@ -69,6 +69,26 @@ CHECKS = {
         ref="DESIGN.md 6/C05",
         note=NOTE + "SuperLU's exact solve of the nonsingular reduced system is assumed (monitored); uniqueness/affine reproduction are evaluated by the search oracle, the balanced-vertex theorem is in progress.",
         technique="Lean 4 proof (induction over the triplet list, relative to the solve contract) tied by captured-argument comparison and differential driver"),
+    "C07": dict(
+        text="Theorems: the backward-Euler matrix B + tA acts as form_B + t form_A; for every solver output satisfying (B+tA)u = b, symmetric "
+             "constant-annihilating A (C01) gives 1^T B u = sum b (conservation; with the lumped diagonal B this is sum B_ii u_i and the seed "
+             "vector sums to the number of distinct seeds); kernel entries are the spectral sums, symmetric in (p,q), and diagonal is the "
+             "kernel at p=q=x. The matrix/right-hand side handed to SuperLU are captured and compared with the model; kernel/diagonal "
+             "compared on random spectra and all argument shapes.",
+        ref="DESIGN.md 6/C07",
+        note=NOTE + "SuperLU exact solve assumed (monitored); additivity/similarity clauses are corollaries of linearity and C04 evaluated by the oracle; aniso option not modelled.",
+        technique="Lean 4 proof (finite sums over triplet lists, relative to the solve contract) tied by captured-argument comparison and differential driver"),
+    "C12": dict(
+        text="Theorems for every vertex map and tetra list: is_oriented iff all signed volumes positive (non-empty mesh); orient_ swaps vertices "
+             "1,2 of exactly the negative tetrahedra, returns their count, keeps vertex sets and order, yields an oriented mesh when no "
+             "volume is zero, and is idempotent; boundary_tria returns exactly the faces whose sorted triple occurs once, each once, in "
+             "lexicographic order, with the owning tetrahedron; listed faces of a positive tetrahedron point away from its fourth vertex; "
+             "the origin-cone terms of the four faces sum to the signed volume, so for a face-manifold mesh whose shared faces have opposite "
+             "windings the boundary's enclosed volume equals the sum of tetra volumes and the boundary is closed (every edge in an even "
+             "number of boundary faces). Model compared exactly with the implementation incl. exhaustive subsets x flips of the 5-tet cube.",
+        ref="DESIGN.md 6/C12",
+        note=NOTE + "the tetra model is hand-written and tied by exact differential comparison (np.unique semantics re-implemented).",
+        technique="Lean 4 proof (ring identities per tetrahedron, counting/parity over the face list) tied by exact differential driver"),
 }
 
 NOT_YET = {}
